@@ -413,7 +413,14 @@ func main() {
 		for time.Since(start) < time.Duration(dur)*time.Millisecond {
 			var buf bytes.Buffer
 			ctx := templ.WithChildren(context.Background(), kids)
-			err := f(x, y, u, h, true, at, c, xs).Render(ctx, &buf)
+			err := func() (err error) {
+				defer func() {
+					if r := recover(); r != nil {
+						err = fmt.Errorf("panic: %%v", r)
+					}
+				}()
+				return f(x, y, u, h, true, at, c, xs).Render(ctx, &buf)
+			}()
 			es := ""
 			if err != nil {
 				es = strings.ReplaceAll(strings.ReplaceAll(err.Error(), "\n", " "), "\t", " ")
@@ -976,6 +983,11 @@ func main() {
 		for i, p := range procs {
 			c := picks[i]
 			if err := p.cmd.Wait(); err != nil {
+				if fails > 0 {
+					// the program already misbehaves in the plain comparisons above (reported there)
+					streamRes["inconclusive"] = streamRes["inconclusive"].(int) + 1
+					continue
+				}
 				vhlib.Fatal("stream program failed: %v", err)
 			}
 			edit := editedAt[i].Sub(p.start).Milliseconds() + 30 // process start-up: elapsed times of the program lag behind
